@@ -117,6 +117,7 @@ def rows_of(dispatcher):
 
 class C17(Check):
     pid = "C17"
+    LATE_ATTACH = False
     assumptions = [
         "durations >= 0 (the property says positive; the proofs do not need it), every operation has >= 1 "
         "machine, every job non-empty",
@@ -231,6 +232,9 @@ class C17(Check):
                 case["rm_m"] = case["rm_j"] = 1
             else:
                 case["pre"] = self.gen_pre(rng)
+                r_attach = rng.random()
+                if self.LATE_ATTACH and not custom and r_attach < 0.12:
+                    case["attach_at"] = rng.randint(0, min(total, 5))
                 if rng.random() < 0.2:
                     case["manual_sub"] = 1
                 if rng.random() < 0.55:
@@ -275,6 +279,8 @@ class C17(Check):
             self.note("with_pre_existing_observers")
         if len(case["picks"]) < st["ops"]:
             self.note("partial_history")
+        if "attach_at" in case:
+            self.note("updater_attached_mid_history")
         if case.get("manual_sub"):
             self.note("constructed_unsubscribed_then_subscribed")
         if case.get("picks2"):
@@ -316,7 +322,15 @@ class C17(Check):
                                              p[1:]) if h]
                     IsCompletedObserver(dispatcher, feature_types=fts)
             n_before = len(dispatcher.subscribers)
-            if case.get("manual_sub"):
+            if "attach_at" in case:
+                # late subscription: constructed unsubscribed on the fresh dispatcher (its helper observers ARE
+                # subscribed by the constructor), attached by dispatcher.subscribe(updater) after some dispatches
+                updater = ResidualGraphUpdater(dispatcher, g, subscribe=False,
+                                               remove_completed_machine_nodes=bool(case["rm_m"]),
+                                               remove_completed_job_nodes=bool(case["rm_j"]))
+                if updater in dispatcher.subscribers:
+                    raise RuntimeError("subscribe=False subscribed the updater")
+            elif case.get("manual_sub"):
                 # the documented two-step form: construct unsubscribed, then subscribe explicitly. Subscribing is
                 # `dispatcher.subscribers.append(self)` in both forms (DispatcherObserver.__init__), so the model's
                 # construction is the same; what must not change is that the helper observers are subscribed FIRST.
@@ -329,7 +343,8 @@ class C17(Check):
             else:
                 updater = ResidualGraphUpdater(dispatcher, g, remove_completed_machine_nodes=bool(case["rm_m"]),
                                                remove_completed_job_nodes=bool(case["rm_j"]))
-            if dispatcher.subscribers[-1] is not updater or len(dispatcher.subscribers) < n_before + 1:
+            if "attach_at" not in case and (dispatcher.subscribers[-1] is not updater
+                                            or len(dispatcher.subscribers) < n_before + 1):
                 raise RuntimeError("the updater did not subscribe itself last")
         graph = updater.job_shop_graph
         nodes = [enc_node(n) for n in graph.nodes]
@@ -337,12 +352,21 @@ class C17(Check):
                         if n.node_type.value == 1)
         state0 = enc_state(updater)
 
+        attached = ["attach_at" not in case]
+
+        def attach():
+            if not attached[0]:
+                dispatcher.subscribe(updater)
+                attached[0] = True
+
         def play(picks):
             out = []
             for a, c in picks:
                 ready = dispatcher.raw_ready_operations()
                 if not ready:
                     break
+                if len(out) >= case.get("attach_at", 0):
+                    attach()
                 op = ready[a % len(ready)]
                 m = op.machines[c % len(op.machines)]
                 if env is not None:
@@ -356,6 +380,7 @@ class C17(Check):
             return out
 
         steps = play(case["picks"])
+        attach()
         same_graph = updater.job_shop_graph is graph
         after_reset = []
         if case.get("reset_at_end") and env is None:
@@ -367,7 +392,8 @@ class C17(Check):
     def model_requests(self, case, obs):
         nodes, state0, steps, _, after_reset = obs
         spec = case["spec"]
-        events = [[0] + st[0] for st in steps]
+        k = min(case.get("attach_at", 0), len(steps))
+        events = [[2 if i < k else 0] + st[0] for i, st in enumerate(steps)]
         reqs = []
         if after_reset:
             events.append([1])
@@ -375,7 +401,8 @@ class C17(Check):
             # second episode: the clauses start again from the graph dispatcher.reset() left behind
             reqs.append((1702, [spec, case["filters"], nodes, after_reset[0][0],
                                 [[st[1], st[2][0], st[2][1]] for st in after_reset[1]]]))
-        first = (1702, [spec, case["filters"], nodes, state0[0], [[st[1], st[2][0], st[2][1]] for st in steps]])
+        # (a late-attached updater is judged from its first update on; until then its graph is the one it was built on)
+        first = (1702, [spec, case["filters"], nodes, state0[0], [[st[1], st[2][0], st[2][1]] for st in steps[k:]]])
         if case["builder"] >= 4:
             # custom graph: no model of its builder; the same layout is kept with a placeholder run on builder 1
             return [(1701, [spec, case["filters"], 1, [], 1, 1, []]), first] + reqs
@@ -410,7 +437,13 @@ class C17(Check):
         (positive, nonempty, nodup, all_used), clauses = oracle
         in_scope = bool(nonempty and (nodup or case["builder"] != 0))
         default_opts = bool(case["rm_m"] and case["rm_j"])
-        episodes = [("", steps, clauses)]
+        k = min(case.get("attach_at", 0), len(steps))
+        for i, st in enumerate(steps[:k]):
+            if st[2][0] != state0[0] or st[2][1] != state0[1]:
+                fails.append(Failure("oracle", "detached-updater-changed-its-graph",
+                                     f"dispatch #{i}: the updater is not subscribed yet but its graph changed"))
+                break
+        episodes = [("" if not k else f"(updater attached after {k} dispatches) ", steps[k:], clauses)]
         if after_reset and len(outs) > 2:
             episodes.append(("episode 2 (after dispatcher.reset()), ", after_reset[1], outs[2][1]))
         for ep, esteps, eclauses in episodes:
@@ -513,6 +546,8 @@ class C17(Check):
             yield dict(case, picks=case["picks"][:-1])
         if case["filters"]:
             yield dict(case, filters=[])
+        if case.get("attach_at"):
+            yield dict(case, attach_at=case["attach_at"] - 1)
         if case.get("manual_sub"):
             yield {k: v for k, v in case.items() if k != "manual_sub"}
         if case["pre"] and "env" not in case:
